@@ -209,6 +209,37 @@ def main(tier):
                     chk.obligation('GetEigenSystem(3): %s %s cannot vanish' % (what, T.show(t, 3)), 'holds')
                 else:
                     chk.undecided_q('zero set of %s %s' % (what, T.show(t, 3)))
+    # ---- no state carried between calls (d=3 closed form): the result for a vector must be the same terms whether or not another vector was
+    # decomposed before it in the same thread
+    ex2 = h.executor()
+    ex2.intr['clog'] = cfun('clog')
+    ex2.intr['cpow'] = cfun('cpow')
+    ex2.intr['carg'] = lambda ex_, st, args, ins, name: T.fun('carg', *args)
+    a0 = sym_vec('z', n)
+    old_to = solver.timeout_ms
+    solver.timeout_ms = 300          # branch feasibility only (unknown = explore the branch)
+    ps2 = h.run('h_eigen_twice', [I(3), I(0), Buf('a0', a0), Buf('a', a), Buf('lam', n=3), Buf('vre', n=9), Buf('vim', n=9)], ex=ex2)
+    solver.timeout_ms = old_to
+    chk.note_exec(ex2)
+    single = [p for p in ps if p.status == 'ok' and p.ret == 0]
+    refs = [p_.out('lam') + p_.out('vre') + p_.out('vim') for p_ in single]
+    ok2 = [p2 for p2 in ps2 if p2.status == 'ok' and p2.ret == 0]
+    carried = None
+    matched = 0
+    for p2 in ok2:
+        got = p2.out('lam') + p2.out('vre') + p2.out('vim')
+        if any(all(g is r_ for g, r_ in zip(got, ref)) for ref in refs):
+            matched += 1
+            continue
+        dep = [k for k in range(len(got)) if isinstance(got[k], Term) and any(str(getattr(v, 'aux', v)).startswith('z') for v in T.free_vars([got[k]]))]
+        if dep:
+            carried = dep[0]
+    if not ok2 or not refs:
+        chk.broken_q('h_eigen / h_eigen_twice: no completed path (%d / %d)' % (len(refs), len(ok2)))
+    elif carried is not None:
+        chk.candidates_glue.append({'d': 3, 'order': 0, 'what': 'GetEigenSystem(3): the result of a second call in the same thread depends on the operand of the first call (output %d)' % carried})
+    else:
+        chk.obligation('GetEigenSystem(3) twice in one thread: no output of the second call contains a symbol of the first operand; %d of %d paths return exactly the single-call terms' % (matched, len(ok2)), 'holds')
     chk.note_solver(solver)
     # replay the solver's inputs on the real code: free components get generic values
     rng = np.random.RandomState(chk.seed + 41)
@@ -266,7 +297,7 @@ def main(tier):
         v = np.array([(np.trace(Hd @ Bd[k]).real / (dd if k == 0 else 2.0)) for k in range(dd * dd)])
         rep['d=%d dense (GSL path, informational)' % dd] = native_eval(h, dd, v)
     # call history on one thread through the GSL path: growing and shrinking dimensions (scratch/workspace reuse)
-    seq = [2, 5, 6, 4, 2, 6]
+    seq = [3, 3, 2, 5, 6, 4, 2, 6, 3]
     hist_bad = None
     for dd in seq:
         Xd = rng.randn(dd, dd) + 1j * rng.randn(dd, dd)
